@@ -44,6 +44,8 @@ CHECKS['C11'] = dict(
         dict(name='blake', harness=H('c11', ['harness/c11_blake2b.cpp'], model=True),
              plan={'quick': 'oneshot=120000,stream=120000,counter=40000,invalid=40000,commitment=40000',
                    'thorough': 'oneshot=3000000,stream=3000000,counter=1000000,invalid=400000,commitment=1000000,bigstream=16'}),
+        dict(name='fuzz', kind='fuzz', target='blake2b', harness=H('fz_blake2b', ['fuzz/fuzz_blake2b.cpp'], variant='fuzz', model=True), max_len=2048,
+             runs={'quick': 480000, 'thorough': 16000000}),
     ],
 )
 
@@ -59,6 +61,8 @@ CHECKS['C12'] = dict(
         dict(name='aes', harness=H('c12', ['harness/c12_aes.cpp'], model=True),
              plan={'quick': 'tables=1,round=400000,gen=12000,hash=12000,gen_big=32,hash_big=32',
                    'thorough': 'tables=1,round=20000000,gen=400000,hash=400000,gen_big=2000,hash_big=2000'}),
+        dict(name='fuzz', kind='fuzz', target='aes', harness=H('fz_aes', ['fuzz/fuzz_aes.cpp'], variant='fuzz', model=True), max_len=600,
+             runs={'quick': 80000, 'thorough': 4000000}),
     ],
 )
 
@@ -75,6 +79,8 @@ CHECKS['C04'] = dict(
     stages=[
         dict(name='jit', harness=H('c04', ['harness/c04_jit.cpp'], ldflags=PROG_LD),
              plan={'quick': 'jit_vs_interp=12000,jit_light=1500', 'thorough': 'jit_vs_interp=600000,jit_light=60000'}),
+        dict(name='fuzz', kind='fuzz', target='jit', harness=H('fz_jit', ['fuzz/fuzz_jit_vs_interp.cpp'], variant='fuzz', ldflags=PROG_LD), max_len=3216,
+             runs={'quick': 8000, 'thorough': 2000000}),
     ],
 )
 
